@@ -140,7 +140,18 @@ func c06R1(c *Ctx) {
 		return true
 	}
 	nStore := 0
-	for _, in := range x5StoresToField(fn, optOption) {
+	optStores := x5StoresToField(fn, optOption)
+	if len(optStores) == 0 {
+		// the EDNS arm was extracted wholesale: its stores are those of the unexported
+		// helper(s) of WriteMsg that perform the strips
+		for _, g := range scopeFuncs(fn) {
+			if TopLevel(g) == fn || len(instrsWhere(g, isCallTo(stripECS, stripKA))) == 0 {
+				continue
+			}
+			optStores = append(optStores, x5StoresToField(g, optOption)...)
+		}
+	}
+	for _, in := range optStores {
 		nStore++
 		st := in.(*ssa.Store)
 		v := Desc(st.Val)
@@ -166,7 +177,8 @@ func c06R1(c *Ctx) {
 				r := reach([]Point{pointAfter(in)}, []Barrier{CallBarrier(s.n, s.f)}, nil)
 				bad := false
 				for _, t := range r.order {
-					if delegate(t) {
+					// inside an extracted helper the strips must follow before it returns
+					if delegate(t) || (TopLevel(in.Parent()) != fn && isReturn(t)) {
 						bad = true
 						c.violation(R, key+" (merge then "+s.n+")", instrPos(in), "options merged into the response OPT reach the delegate write without "+s.n+"; path "+c.trail(r, t))
 						break
